@@ -175,9 +175,26 @@ CHECKS = {
                 "Compressor compared number by number; real codecs in sandboxed children (bounds per call); peak RSS above baseline of "
                 "workers writing/extracting 128-768 MiB (quick) / 0.5-4 GiB (thorough) members per codec family.",
         "note": "Trusted: Coq kernel; Mem.v/Decomp.v hand models tied by correspondence; partial: codec-internal memory and the CPython "
-                "allocator are measured, not proved. Deflate/Deflate64/ZStandard/Brotli ignoring max_length and input retention in "
-                "inflate64/pyppmd are known findings.",
+                "allocator are measured, not proved. Deflate/ZStandard/Brotli ignoring max_length were repaired in the repository; "
+                "Deflate64 (inflate64 has no output limit) and input retention in inflate64/pyppmd are known findings.",
         "technique": "Coq proof of buffer bounds on the streaming state machine + RSS measurement in sandboxed workers",
+    },
+    "C01": {
+        "text": "Write side (Comp.v): for any stream encoders meeting the stated contract, any block size, read schedule and member list the "
+                "packed stream is a stage-by-stage encoding of the members' concatenation, and the recorded sizes/CRCs are exact "
+                "(C01_compress_chain, C01_sizes_and_crcs, no IndexError, termination). Read side (Decomp.v): for any monotone prefix-safe "
+                "stream decoders, any max_length pattern and short-read schedule SevenZipDecompressor/Worker.decompress deliver exactly "
+                "the first n bytes of the decoded stream per member; composition (RoundTrip.v): members read = members written. AES "
+                "residue buffering (Aes.v) proved equal to CBC over the padded concatenation for every chunking; the AES methods and "
+                "calculate_crc32 are also machine-translated from the source on every run (coq/gen/AesBuf.v, HelpersCrc.v) and the "
+                "theorems restated over the generated code. Harness: per-call correspondence of the real classes with toy stages against "
+                "the extracted model, contract validation of every codec wrapper, and sandboxed end-to-end sessions over chain x password "
+                "x header mode x target (file, BytesIO, multi-volume) x block size x member shapes.",
+        "note": "Trusted: Coq kernel; hand models Comp/Decomp/Aes tied by correspondence, AES buffering and calculate_crc32 additionally by "
+                "the translator; codec libraries are hypotheses (validated, not proved). Partial: the codecs themselves and the header "
+                "path (C06/C07/C17). Ten known findings (short reads, AES small chunks, Brotli/BCJ before AES, PPMd chunk contract, "
+                "multi-volume recursion).",
+        "technique": "Coq proof of the compress/decompress state machines parametric in the codecs + translator tie for AES buffering/CRC + session exploration",
     },
     "C04": {
         "text": "The acceptance logic as a chain of CRC checks over arbitrary decoders (Damage.v): an accepted, modified archive delivers "
@@ -220,4 +237,4 @@ CHECKS = {
 
 _PENDING = "check not built yet in this session (planned, see DESIGN.md section 5); not a statement that proof is inapplicable"
 NOT_APPLICABLE = {p: _PENDING for p in
-                  ["C01"]}
+                  []}
